@@ -6,6 +6,7 @@ exit 2: harness error (never to be read as "held")"""
 import argparse, importlib, json, os, re, subprocess, sys, time
 
 from .common import VERIF, seed as get_seed
+OUT = os.environ.get("VERIF_OUT", VERIF)   # mutant runs write evidence/replays elsewhere
 from . import explore
 
 FINDINGS_FILE = os.path.join(VERIF, "known_findings.json")
@@ -137,7 +138,7 @@ def main(argv=None):
         print("HARNESS-ERROR count=%d" % len(harness_errors))
     # write replays, confirm the first few in a fresh process
     vio_lines = []
-    rdir = os.path.join(VERIF, "replays", pid)
+    rdir = os.path.join(OUT, "replays", pid)
     seen_sig = {}
     for c, v in violations:
         key = v.get("sig", "")
@@ -180,8 +181,8 @@ def main(argv=None):
     except Exception as e:
         print("HARNESS-ERROR evidence does not validate: %s" % str(e)[:300])
         rc = 2
-    os.makedirs(os.path.join(VERIF, "evidence"), exist_ok=True)
-    json.dump(ev, open(os.path.join(VERIF, "evidence", pid + ".json"), "w"), indent=1, default=str)
+    os.makedirs(os.path.join(OUT, "evidence"), exist_ok=True)
+    json.dump(ev, open(os.path.join(OUT, "evidence", pid + ".json"), "w"), indent=1, default=str)
     print("%s tier=%s states=%d traces=%d evaluations=%d distinct_outcomes=%d nontrivial=%d caps=%d known=%d violations=%d wall=%.1fs rc=%d" % (
         pid, tier, n_cases, traces, evaluations, len(outcomes), len(nontrivial), len(caps), sum(v[0] for v in known_hits.values()), len(vio_lines), wall, rc))
     return rc
